@@ -1097,6 +1097,58 @@ example :
     (FundConf.run c (up [1])).1.sent = some 1 ∧ (FundConf.run c (up [1] ++ [.disc 100])).1.sent = none ∧
     (FundConf.run c (up [1] ++ [.disc 100] ++ up [1])).2 = [1, 1] := by decide
 
+/-- Delivery-order independence of one connected block for ANY number of negotiated (RBF) splice candidates, for
+    every block that confirms none of the still-unconfirmed candidates (every block after the candidate confirmed, every
+    block of a competing fork without it, duplicated / rescanned blocks): best-block-first, transactions-first and the
+    Listen call end in the same channel with the same splice_locked messages — whatever is recorded (one candidate
+    shallow / deep / locked, none, even the ill-formed two) as long as nothing is recorded above the block.
+    The complementary case (the block that confirms a candidate) is connect_order_independent_confirming_block. -/
+theorem connect_order_independent_nonconfirming_block (c : Chan) (h : Nat) (ids : List Nat) (hcl : c.closed = false)
+    (hm0 : c.main.confHeight ≠ 0) (hmh : c.main.confHeight ≤ h) (hfh : ∀ f ∈ c.cands, f.confHeight ≤ h)
+    (hb : c.best < h) (hno : ∀ f ∈ c.cands, f.confHeight = 0 → f.txid ∉ ids) :
+    FundConf.run c [.best h, .conf h ids] = FundConf.run c [.conf h ids, .best h] ∧
+    FundConf.run c [.block h ids] = FundConf.run c [.conf h ids, .best h] :=
+  connect_order_no_candidate c h ids hcl hm0 hmh hfh hb hno
+
+/-- non-vacuity: three candidates, the second confirmed at 101 reaches minimum_depth in block 106 under both orders -/
+example :
+    let c : Chan := { minDepth := 6, best := 105, main := { txid := 0, confHeight := 90, confIn := true, scid := true },
+                      cands := [{ txid := 1 }, { txid := 2, confHeight := 101, confIn := true, scid := true }, { txid := 3 }] }
+    FundConf.run c [.best 106, .conf 106 [7, 2]] = FundConf.run c [.conf 106 [7, 2], .best 106] ∧
+    (FundConf.run c [.best 106, .conf 106 [7, 2]]).2 = [2] := by decide
+
+/-- Delivery-order independence for the block that CONFIRMS one of SEVERAL negotiated (RBF) candidates. Hypotheses =
+    well-formedness of the chain, not a restriction of the code: the candidates of one pending splice all spend the
+    current funding output, so (a) while one of them is about to confirm none of the others is in the chain (all
+    unconfirmed) and (b) the block holds the txid of at most one of them (`f`; every other id of the block is arbitrary).
+    Then best-first and transactions-first end in the same channel with the same splice_locked messages (Listen =
+    transactions-first by definition). With connect_order_independent_nonconfirming_block this covers every block of a
+    well-formed chain for any number of candidates; what is outside is exactly the ill-formed block of the
+    kernel-checked example below. -/
+theorem connect_order_independent_confirming_block (c : Chan) (pre suf : List Scope) (f : Scope) (h : Nat) (ids : List Nat)
+    (hcl : c.closed = false) (hc : c.cands = pre ++ f :: suf) (hp : AllU pre) (hs : AllU suf) (hf : f.confHeight = 0)
+    (hm0 : c.main.confHeight ≠ 0) (hmh : c.main.confHeight ≤ h) (hb : c.best < h)
+    (hno : ∀ g ∈ pre ++ suf, g.txid ∉ ids) :
+    FundConf.run c [.best h, .conf h ids] = FundConf.run c [.conf h ids, .best h] :=
+  connect_order_one_of_several c pre suf f h ids hcl hc hp hs hf hm0 hmh hb hno
+
+/-- non-vacuity: two candidates, a 1-conf channel, a block confirming ONE of them — both orders agree and lock it -/
+example :
+    let c : Chan := { minDepth := 1, best := 100, main := { txid := 0, confHeight := 90, confIn := true, scid := true }, cands := [{ txid := 1 }, { txid := 2 }] }
+    FundConf.run c [.best 101, .conf 101 [2]] = FundConf.run c [.conf 101 [2], .best 101] ∧
+    FundConf.run c [.best 101, .conf 101 [9, 1]] = FundConf.run c [.conf 101 [9, 1], .best 101] := by decide
+
+/-- DOCUMENTED LIMITATION (kernel-checked): a block holding BOTH conflicting candidates, the later-negotiated one first.
+    The candidate loop of transactions_confirmed only errors when the already-confirmed candidate comes EARLIER in
+    negotiated_candidates, so both get recorded; transactions-first then closes in best_block_updated ("splice tx of
+    another pending funding already confirmed"), best-first stays open until the next block. Unreachable with a valid
+    chain (both transactions spend the same funding output); with the candidates in list order both orders close. -/
+example :
+    let c : Chan := { minDepth := 6, best := 100, main := { txid := 0, confHeight := 90, confIn := true, scid := true }, cands := [{ txid := 1 }, { txid := 2 }] }
+    (FundConf.run c [.conf 101 [2, 1], .best 101]).1.closed = true ∧ (FundConf.run c [.best 101, .conf 101 [2, 1]]).1.closed = false ∧
+    (FundConf.run c [.best 101, .conf 101 [2, 1], .best 102]).1.closed = true ∧
+    (FundConf.run c [.conf 101 [1, 2], .best 101]).1.closed = true ∧ (FundConf.run c [.best 101, .conf 101 [1, 2]]).1.closed = true := by decide
+
 end FundingScopes
 
 
